@@ -151,6 +151,7 @@ def gen_case(rng, tier):
                   "variances": L(sig6(variances * rs.uniform(0.7, 1.4, size=(c, d)))),
                   "weights": L(gen_simplex(rng, c))},
         "X0": L(X0), "X1": L(X1), "y0": y0, "ys": ys, "stat_rows": stat_rows,
+        "xlayout": rng.choice(["C", "C", "F", "strided", "transposed"]),
         "init_c": L(init_c), "rU": rng.randint(1, 2), "rV": rng.randint(1, 2),
         "dim_t": rng.randint(1, 2), "ops": ops,
     }
@@ -161,13 +162,27 @@ def sample_view(case):
 
 
 # ---------------------------------------------------------------------------
+def _layout(case, X):
+    """The caller's arrays come in every valid memory layout."""
+    lay = case.get("xlayout", "C")
+    if lay == "F":
+        return np.asfortranarray(X)
+    if lay == "strided":
+        big = np.zeros((X.shape[0] * 2, X.shape[1] + 1))
+        big[::2, :-1] = X
+        return big[::2, :-1]
+    if lay == "transposed":  # a (features, samples) store handed over as .T
+        return np.ascontiguousarray(X.T).T
+    return X
+
+
 class Pool:
     def __init__(self, case):
         from bob.learn.em import GMMMachine
 
         self.case = case
         c = case["c"]
-        self.X0, self.X1 = A(case["X0"]), A(case["X1"])
+        self.X0, self.X1 = _layout(case, A(case["X0"])), _layout(case, A(case["X1"]))
         self.y0_list = list(case["y0"])
         self.y0_arr = np.array(case["y0"])
         self.ys_arr = np.array(case["ys"])
